@@ -13,8 +13,8 @@ TECHNIQUE = ("property-based metamorphic testing (Hypothesis) with a string-leve
              "reverse complement; exhaustive pass over the registry plasmids that "
              "carry exactly two sites of their cutter")
 RULE = ("(a) C01's assemblies (all enzymes, chains 1-5, drawn rotations, junction "
-        "overhangs pairwise non-colliding and non-palindromic so the mirrored "
-        "assembly is unambiguous too): every participant r is checked against "
+        "overhangs pairwise non-colliding -- palindromic ones allowed -- so the "
+        "mirrored assembly is unambiguous too): every participant r is checked against "
         "rc(r) -- built from the reverse-complemented string and also with the real "
         "reverse_complement(): valid iff valid, overhang_start(rc r) = rc(overhang_"
         "end(r)) and vice versa, target body target[k:] = rc of the original body; "
@@ -114,6 +114,6 @@ def run_exhaustive(reg, ctx):
 
 
 def strategies(tier):
-    s = plasmid.assembly_spec(max_chain=5, max_seg=30, allow_palindromes=False, strict_last=True).map(
+    s = plasmid.assembly_spec(max_chain=5, max_seg=30, allow_palindromes=True, strict_last=True).map(
         lambda a: {"kind": "gen", "assembly": a})
     return {"gen": (s, 400 if tier == "quick" else 8000)}
